@@ -28,7 +28,7 @@ def lastOf (s : St) : Option Nat :=
   | some r => (match s.recs[r]? with
                | some x => x.exitedCh
                | none => none)
-  | none => none
+  | none => s.cleared
 
 def proj (s : St) : Chain.Slot := { insts := s.insts.map pI, last := lastOf s }
 
@@ -109,6 +109,17 @@ theorem Steps.inv {a b : Chain.Slot} (h : Steps a b) (hi : Chain.Inv a) : Chain.
     · rfl
   · rfl
 
+@[simp] theorem cancelInst_cleared (s : St) (n : Nat) : (cancelInst s n).cleared = s.cleared := by
+  unfold cancelInst; split <;> rfl
+@[simp] theorem cancelOpt_cleared (s : St) (o : Option Nat) : (cancelOpt s o).cleared = s.cleared := by
+  cases o <;> simp [cancelOpt]
+@[simp] theorem killTimer_cleared (s : St) (o : Option Nat) : (killTimer s o).cleared = s.cleared := by
+  unfold killTimer; split
+  · split
+    · split <;> rfl
+    · rfl
+  · rfl
+
 theorem get_lt {α : Type} {l : List α} {i : Nat} {x : α} (h : l[i]? = some x) : i < l.length := by
   rcases Nat.lt_or_ge i l.length with h' | h'
   · exact h'
@@ -130,6 +141,8 @@ theorem getElem_of_get {α : Type} {l : List α} {i : Nat} {x : α} (h : l[i]? =
   unfold stopRec cancelOpt cancelInst killTimer
   repeat' split
   all_goals rfl
+@[simp] theorem stopRec_cleared (s : St) (r : Nat) : (stopRec s r).cleared = s.cleared := by
+  unfold stopRec; split <;> simp
 @[simp] theorem stopRec_recs_len (s : St) (r : Nat) : (stopRec s r).recs.length = s.recs.length := by
   unfold stopRec; split <;> simp
 
@@ -153,7 +166,9 @@ theorem stopRec_recs_get (s : St) (r q : Nat) :
     · subst h; simp [hx]
     · simp [h]
 
-theorem lastOf_eq (s : St) : lastOf s = s.routine.bind fun r => (s.recs[r]?).bind (·.exitedCh) := by
+theorem lastOf_eq (s : St) : lastOf s = (match s.routine with
+    | some r => (s.recs[r]?).bind (·.exitedCh)
+    | none => s.cleared) := by
   unfold lastOf
   cases s.routine with
   | none => rfl
@@ -162,9 +177,9 @@ theorem lastOf_eq (s : St) : lastOf s = s.routine.bind fun r => (s.recs[r]?).bin
 @[simp] theorem lastOf_stopRec (s : St) (r : Nat) : lastOf (stopRec s r) = lastOf s := by
   rw [lastOf_eq, lastOf_eq, stopRec_routine]
   cases s.routine with
-  | none => rfl
+  | none => simp
   | some q =>
-    simp only [Option.bind_some, stopRec_recs_get]
+    simp only [stopRec_recs_get]
     by_cases h : q = r
     · subst h; cases s.recs[q]? <;> simp
     · simp [h]
@@ -212,13 +227,15 @@ theorem lastOf_of {s : St} {r : Nat} {x : Rec} (h1 : s.routine = some r) (h2 : s
     lastOf s = x.exitedCh := by
   simp [lastOf, h1, h2]
 
-theorem lastOf_none {s : St} (h1 : s.routine = none) : lastOf s = none := by
+theorem lastOf_none {s : St} (h1 : s.routine = none) : lastOf s = s.cleared := by
   simp [lastOf, h1]
 
 @[simp] theorem bcastNow_insts (s : St) : s.bcastNow.insts = s.insts := rfl
 @[simp] theorem bcastNow_recs (s : St) : s.bcastNow.recs = s.recs := rfl
 @[simp] theorem bcastNow_routine (s : St) : s.bcastNow.routine = s.routine := rfl
+@[simp] theorem bcastNow_cleared (s : St) : s.bcastNow.cleared = s.cleared := rfl
 @[simp] theorem lastOf_bcastNow (s : St) : lastOf s.bcastNow = lastOf s := rfl
+@[simp] theorem normCtx_cleared (s : St) : (normCtx s).cleared = s.cleared := by unfold normCtx; split <;> rfl
 @[simp] theorem normCtx_insts (s : St) : (normCtx s).insts = s.insts := by unfold normCtx; split <;> rfl
 @[simp] theorem normCtx_recs (s : St) : (normCtx s).recs = s.recs := by unfold normCtx; split <;> rfl
 @[simp] theorem normCtx_routine (s : St) : (normCtx s).routine = s.routine := by unfold normCtx; split <;> rfl
@@ -259,7 +276,9 @@ theorem setContextCS_shape (s : St) (c : Nat) (restart : Bool) : Shape s (setCon
       · rename_i rr hx
         split
         · exact .same rfl (by simp [lastOf, hr, hx])
-        · have hs2r : (stopRec { s with ctx := c } r).routine = some r := by simp [hr]
+        · split
+          · exact .same rfl (by simp [lastOf, hr, hx])
+          have hs2r : (stopRec { s with ctx := c } r).routine = some r := by simp [hr]
           have hs2x : (stopRec { s with ctx := c } r).recs[r]? = some rr.stopped := by
             simp [stopRec_recs_get, hx]
           have hl2 : lastOf (stopRec { s with ctx := c } r) = lastOf s := by
@@ -273,11 +292,12 @@ theorem setContextCS_shape (s : St) (c : Nat) (restart : Bool) : Shape s (setCon
           · exact .same (by simp) (by simp [hl2])
 
 theorem lastOf_congr {s s' : St} (h1 : s'.routine = s.routine)
-    (h2 : ∀ q, s.routine = some q → (s'.recs[q]?).bind (·.exitedCh) = (s.recs[q]?).bind (·.exitedCh)) :
+    (h2 : ∀ q, s.routine = some q → (s'.recs[q]?).bind (·.exitedCh) = (s.recs[q]?).bind (·.exitedCh))
+    (h3 : s'.cleared = s.cleared := by simp) :
     lastOf s' = lastOf s := by
   rw [lastOf_eq, lastOf_eq, h1]
   cases hr : s.routine with
-  | none => rfl
+  | none => simpa using h3
   | some q => simpa using h2 q hr
 
 @[simp] theorem startSkips_force (s : St) (x : Rec) : startSkips s x true = false := by
@@ -391,10 +411,14 @@ theorem detachPrev_pch (s : St) : (detachPrev s).2.1 = lastOf s := by
     startSkips s { fn := f, arg := arg, exitedCh := e } false = false := by
   simp [startSkips]
 
-/-- `setRoutineLocked`, except when it clears the routine while the previous record still holds an exit
-channel (the open finding D16) -/
-theorem setRoutineLocked_shape (s : St) (f arg : Nat)
-    (hok : f ≠ 0 ∨ lastOf s = none) : Shape s (setRoutineLocked s f arg).1 := by
+@[simp] theorem detachPrev_cleared (s : St) : (detachPrev s).1.cleared = none := by
+  cases hr : s.routine with
+  | none => simp [detachPrev, hr]
+  | some r => cases hx : s.recs[r]? <;> simp [detachPrev, hr, hx]
+
+/-- `setRoutineLocked`: a new routine is told to wait on `last`; clearing the routine keeps `last` in
+`clearedExitedCh` (fix 3b21148 of D16) -/
+theorem setRoutineLocked_shape (s : St) (f arg : Nat) : Shape s (setRoutineLocked s f arg).1 := by
   have hdr := detachPrev_routine (normCtx s)
   have hpch : (detachPrev (normCtx s)).2.1 = lastOf s := by rw [detachPrev_pch]; simp
   simp only [setRoutineLocked]
@@ -409,15 +433,9 @@ theorem setRoutineLocked_shape (s : St) (f arg : Nat)
       · simp
     · refine .same (by simp) ?_
       simp [lastOf, hpch]
-  · rename_i hf
-    have hf0 : f = 0 := by simpa using hf
-    have hl : lastOf s = none := by
-      rcases hok with h | h
-      · exact absurd hf0 h
-      · exact h
-    split
-    · exact .same (by simp) (by simp [lastOf_none hdr, hl])
-    · exact .same (by simp) (by simp [lastOf_none hdr, hl])
+  · split
+    · exact .same (by simp) (by simp [lastOf, hdr, hpch])
+    · exact .same (by simp) (by simp [lastOf, hdr, hpch])
 
 /-! ## per-record invariant -/
 
@@ -428,7 +446,8 @@ structure RecInv (s : St) (r : Nat) (x : Rec) : Prop where
   k2 : ∀ n, x.cancelOf = some n → x.rctx = some n
   /-- the current instance exists and points back -/
   k5 : ∀ n, x.rctx = some n → ∃ y, s.insts[n]? = some y ∧ y.rid = r
-  e1 : ∀ p, x.exitedCh = some p → p < s.insts.length
+  /-- a recorded failure belongs to an instance that has exited -/
+  kx : x.err ≠ none → ∀ n, x.rctx = some n → ∃ y, s.insts[n]? = some y ∧ y.st = .closed
 
 def AllRec (s : St) : Prop := ∀ r x, s.recs[r]? = some x → RecInv s r x
 
@@ -473,7 +492,10 @@ theorem RecInv.mono {s s' : St} {r : Nat} {x : Rec} (h : RecInv s r x) (he : Ins
     obtain ⟨y, hy, hr⟩ := h.k5 n hn
     obtain ⟨y', h1, h2⟩ := he n y hy
     exact ⟨y', h1, h2.1.trans hr⟩
-  · intro p hp; exact Nat.lt_of_lt_of_le (h.e1 p hp) he.len
+  · intro he' n hn
+    obtain ⟨y, hy, hc⟩ := h.kx he' n hn
+    obtain ⟨y', h1, h2⟩ := he n y hy
+    exact ⟨y', h1, by rw [h2.2.2.2.1]; exact hc⟩
 
 theorem instsExt_set (s : St) (n : Nat) (x y : Inst) (hx : s.insts[n]? = some x) (hle : x.le y) :
     InstsExt s { s with insts := s.insts.set n y } := by
@@ -511,22 +533,22 @@ theorem AllRec.set {s : St} (h : AllRec s) (r : Nat) (y : Rec) (hy : RecInv s r 
   by_cases hq : r = q
   · subst hq
     by_cases hlt : r < s.recs.length
-    · simp [hlt] at hx; subst hx; exact ⟨hy.j1, hy.k2, hy.k5, hy.e1⟩
+    · simp [hlt] at hx; subst hx; exact ⟨hy.j1, hy.k2, hy.k5, hy.kx⟩
     · simp [hlt] at hx
-  · simp [hq] at hx; have := h q x hx; exact ⟨this.j1, this.k2, this.k5, this.e1⟩
+  · simp [hq] at hx; have := h q x hx; exact ⟨this.j1, this.k2, this.k5, this.kx⟩
 
 theorem AllRec.append {s : St} (h : AllRec s) (y : Rec) (hy : RecInv s s.recs.length y) :
     AllRec { s with recs := s.recs ++ [y] } := by
   intro q x hx
   by_cases hlt : q < s.recs.length
-  · rw [List.getElem?_append_left hlt] at hx; have := h q x hx; exact ⟨this.j1, this.k2, this.k5, this.e1⟩
+  · rw [List.getElem?_append_left hlt] at hx; have := h q x hx; exact ⟨this.j1, this.k2, this.k5, this.kx⟩
   · simp only [List.getElem?_append, hlt, if_false] at hx
     have hq : q = s.recs.length := by
       rcases Nat.lt_or_ge (q - s.recs.length) 1 with h1 | h1
       · omega
       · have : [y][q - s.recs.length]? = none := List.getElem?_eq_none (by simpa using h1)
         rw [this] at hx; cases hx
-    subst hq; simp at hx; subst hx; exact ⟨hy.j1, hy.k2, hy.k5, hy.e1⟩
+    subst hq; simp at hx; subst hx; exact ⟨hy.j1, hy.k2, hy.k5, hy.kx⟩
 
 theorem allRec_stopRec {s : St} (h : AllRec s) (r : Nat) : AllRec (stopRec s r) := by
   unfold stopRec
@@ -538,9 +560,8 @@ theorem allRec_stopRec {s : St} (h : AllRec s) (r : Nat) : AllRec (stopRec s r) 
       exact ⟨y', by simpa using h1, h2⟩
     have h1 : AllRec (killTimer (cancelOpt s x.cancelOf) x.retry) := h.of_eq (by simp) he
     apply h1.set
-    have hr := (h r x hx).mono he
     exact ⟨by intro n hn; simp [Rec.stopped] at hn, by intro n hn; simp [Rec.stopped] at hn,
-           by intro n hn; simp [Rec.stopped] at hn, by intro p hp; exact hr.e1 p hp⟩
+           by intro n hn; simp [Rec.stopped] at hn, by intro _ n hn; simp [Rec.stopped] at hn⟩
   · exact h
 
 theorem instsExt_stopRec (s : St) (r : Nat) : InstsExt s (stopRec s r) := by
@@ -572,7 +593,7 @@ theorem allRec_startRec {s : St} (h : AllRec s) (r c : Nat) (w : Option Nat) (fo
         simp at hn; subst hn
         refine ⟨{ rid := r, root := c, waitOn := w, born := s.croots.contains c }, ?_, rfl⟩
         simp
-      · intro p hp; simp at hp; subst hp; simp
+      · intro he; simp at he
 
 theorem instsExt_startRec (s : St) (r c : Nat) (w : Option Nat) (force : Bool) :
     InstsExt s (startRec s r c w force) := by
@@ -606,11 +627,17 @@ theorem csok_bcast (s : St) : CSOK s s.bcastNow := CSOK.of_eq rfl rfl
 theorem csok_set (s : St) (r : Nat) (x y : Rec) (hx : s.recs[r]? = some x)
     (h1 : y.rctx = x.rctx)
     (h2 : y.cancelOf = x.cancelOf ∨ y.cancelOf = none)
-    (h3 : y.exitedCh = x.exitedCh ∨ y.exitedCh = none) :
+    (h3 : y.exitedCh = x.exitedCh ∨ y.exitedCh = none)
+    (h4 : y.err = x.err ∨ ∀ n, y.rctx = some n → ∃ z, s.insts[n]? = some z ∧ z.st = .closed) :
     CSOK s { s with recs := s.recs.set r y } := by
   refine ⟨InstsExt.of_eq rfl, fun h => h.set r y ?_⟩
   have hr := h r x hx
   refine ⟨?_, ?_, ?_, ?_⟩
+  rotate_left 3
+  · intro he n hn
+    rcases h4 with e | e
+    · exact hr.kx (e ▸ he) n (h1 ▸ hn)
+    · exact e n hn
   · intro n hn
     rcases h3 with e | e
     · rw [e]; exact hr.j1 n (h1 ▸ hn)
@@ -620,14 +647,10 @@ theorem csok_set (s : St) (r : Nat) (x y : Rec) (hx : s.recs[r]? = some x)
     · rw [h1]; exact hr.k2 n (e ▸ hn)
     · rw [e] at hn; cases hn
   · intro n hn; exact hr.k5 n (h1 ▸ hn)
-  · intro p hp
-    rcases h3 with e | e
-    · rw [e] at hp; exact hr.e1 p hp
-    · rw [e] at hp; cases hp
 
 theorem csok_detachPrev (s : St) : CSOK s (detachPrev s).1 := by
   cases hr : s.routine with
-  | none => simp only [detachPrev, hr]; exact CSOK.refl s
+  | none => simp only [detachPrev, hr]; exact CSOK.of_eq rfl rfl
   | some r =>
     cases hx : s.recs[r]? with
     | none => simp only [detachPrev, hr, hx]; exact CSOK.of_eq rfl rfl
@@ -635,7 +658,7 @@ theorem csok_detachPrev (s : St) : CSOK s (detachPrev s).1 := by
       simp only [detachPrev, hr, hx]
       refine (csok_cancelOpt s x.cancelOf).trans ?_
       have hx' : (cancelOpt s x.cancelOf).recs[r]? = some x := by simpa using hx
-      exact (csok_set _ r x { x with cancelOf := none } hx' rfl (Or.inr rfl) (Or.inl rfl)).trans
+      exact (csok_set _ r x { x with cancelOf := none } hx' rfl (Or.inr rfl) (Or.inl rfl) (Or.inl rfl)).trans
         (CSOK.of_eq rfl rfl)
 
 theorem csok_setContextCS (s : St) (c : Nat) (restart : Bool) : CSOK s (setContextCS s c restart).1 := by
@@ -648,7 +671,9 @@ theorem csok_setContextCS (s : St) (c : Nat) (restart : Bool) : CSOK s (setConte
       · exact CSOK.of_eq rfl rfl
       · split
         · exact CSOK.of_eq rfl rfl
-        · rename_i r _ _ rr _ _
+        · split
+          · exact CSOK.of_eq rfl rfl
+          rename_i r _ _ rr _ _ _
           have h0 : CSOK s { s with ctx := c } := CSOK.of_eq rfl rfl
           split
           · exact ((h0.trans (csok_stopRec _ r)).trans (csok_startRec _ r c rr.exitedCh false)).trans (csok_bcast _)
@@ -665,29 +690,21 @@ theorem csok_restartCS (s : St) : CSOK s (restartCS s).1 := by
       have hx' : (cancelOpt (normCtx s) x.cancelOf).recs[r]? = some x := by simpa using hx
       have h1 : CSOK s (cancelOpt (normCtx s) x.cancelOf) := (csok_normCtx s).trans (csok_cancelOpt _ _)
       split
-      · exact h1.trans (csok_set _ r x { x with cancelOf := none } hx' rfl (Or.inr rfl) (Or.inl rfl))
+      · exact h1.trans (csok_set _ r x { x with cancelOf := none } hx' rfl (Or.inr rfl) (Or.inl rfl) (Or.inl rfl))
       · refine (h1.trans ?_).trans (csok_bcast _)
-        have h2 := csok_set _ r x { x with cancelOf := none, exitedCh := none } hx' rfl (Or.inr rfl) (Or.inr rfl)
+        have h2 := csok_set _ r x { x with cancelOf := none, exitedCh := none } hx' rfl (Or.inr rfl) (Or.inr rfl) (Or.inl rfl)
         refine CSOK.trans ?_ (csok_startRec _ r _ x.exitedCh true)
         simpa using h2
 
-theorem lastOf_lt {s : St} (h : AllRec s) (p : Nat) (hp : lastOf s = some p) : p < s.insts.length := by
-  cases hr : s.routine with
-  | none => simp [lastOf, hr] at hp
-  | some r =>
-    cases hx : s.recs[r]? with
-    | none => simp [lastOf, hr, hx] at hp
-    | some x => simp [lastOf, hr, hx] at hp; exact (h r x hx).e1 p hp
-
-theorem csok_appendRec (s : St) (y : Rec) (h1 : y.rctx = none) (h2 : y.cancelOf = none)
-    (h3 : ∀ p, y.exitedCh = some p → p < s.insts.length) (rt : Option Nat) :
+theorem csok_appendRec (s : St) (y : Rec) (h1 : y.rctx = none) (h2 : y.cancelOf = none) (rt : Option Nat) :
     CSOK s { s with recs := s.recs ++ [y], routine := rt } := by
   refine ⟨InstsExt.of_eq rfl, fun h => ?_⟩
   have hy : RecInv s s.recs.length y := by
-    refine ⟨?_, ?_, ?_, h3⟩
+    refine ⟨?_, ?_, ?_, ?_⟩
     · intro n hn; rw [h1] at hn; cases hn
     · intro n hn; rw [h2] at hn; cases hn
     · intro n hn; rw [h1] at hn; cases hn
+    · intro _ n hn; rw [h1] at hn; cases hn
   have : AllRec { s with recs := s.recs ++ [y] } := h.append y hy
   exact this.of_eq rfl (InstsExt.of_eq rfl)
 
@@ -697,18 +714,13 @@ theorem csok_setRoutineLocked (s : St) (f arg : Nat) : CSOK s (setRoutineLocked 
   split
   · split
     · refine ((hd.trans ?_).trans (csok_startRec _ _ _ _ false)).trans (csok_bcast _)
-      exact csok_appendRec _ { fn := f, arg := arg } rfl rfl (by intro p hp; cases hp) _
-    · refine ⟨(hd.1.trans (InstsExt.of_eq rfl)), fun h => ?_⟩
-      have hpl : ∀ p, (detachPrev (normCtx s)).2.1 = some p → p < (detachPrev (normCtx s)).1.insts.length := by
-        intro p hp
-        rw [detachPrev_pch, lastOf_normCtx] at hp
-        have := lastOf_lt h p hp
-        exact Nat.lt_of_lt_of_le this hd.1.len
-      exact ((csok_appendRec _ { fn := f, arg := arg, exitedCh := (detachPrev (normCtx s)).2.1 } rfl rfl hpl _).trans
-        (csok_bcast _)).2 (hd.2 h)
+      exact csok_appendRec _ { fn := f, arg := arg } rfl rfl _
+    · exact (hd.trans (csok_appendRec _ { fn := f, arg := arg, exitedCh := (detachPrev (normCtx s)).2.1 } rfl rfl _)).trans
+        (csok_bcast _)
   · split
-    · exact hd.trans (csok_bcast _)
-    · exact hd
+    · refine (hd.trans ?_).trans (csok_bcast _)
+      exact CSOK.of_eq rfl rfl
+    · exact hd.trans (CSOK.of_eq rfl rfl)
 
 theorem csok_updateStateRoutine (s : St) : CSOK s (updateStateRoutine s).1 := by
   simp only [updateStateRoutine]; exact csok_setRoutineLocked s _ _
@@ -758,32 +770,11 @@ theorem csok_apiCS (s : St) (cf : Cfg) (op : Op) (r : St × Res × Option Nat) (
     · simp at h; subst h; exact CSOK.refl s
   | waitExited _ => simp [apiCS] at h
 
-/-! ## the open finding D16 as a predicate on events -/
-
-/-- **D16 pattern**: the critical section of call `a` leaves the container without a routine although the record it
-removes still holds an exit channel (the call returns a non-nil wait channel): the container forgets a channel
-that may still be open. `SetRoutine(nil)`, `SetState(empty)`, `SetStateRoutine(nil)` while an instance of the
-previous routine has not yet been recorded as exited. -/
-def clearsLive (s : St) : Ev → Bool
-  | .cs a =>
-    match s.cfg, s.calls[a]? with
-    | some cf, some c =>
-      c.st == .invoked &&
-      (match apiCS s cf c.op with
-       | some r => r.1.routine.isNone && r.2.2.isSome
-       | none => false)
-    | _, _ => false
-  | _ => false
-
 theorem setRoutineLocked_wr (s : St) (f arg : Nat) : (setRoutineLocked s f arg).2.1 = lastOf s := by
   simp only [setRoutineLocked]
   split
   · split <;> simp [detachPrev_pch]
   · split <;> simp [detachPrev_pch]
-
-theorem setRoutineLocked_routine_zero (s : St) (arg : Nat) : (setRoutineLocked s 0 arg).1.routine = none := by
-  simp [setRoutineLocked]
-  split <;> simp
 
 theorem Shape.of_base {s s0 s' : St} (h : Shape s0 s') (h1 : s0.insts = s.insts) (h2 : lastOf s0 = lastOf s) :
     Shape s s' := by
@@ -791,49 +782,33 @@ theorem Shape.of_base {s s0 s' : St} (h : Shape s0 s') (h1 : s0.insts = s.insts)
   | same a b => exact .same (by rw [a, h1]) (by rw [b, h2])
   | spawn a b => exact .spawn (by rw [a, h1, h2]) (by rw [b, h1])
 
-/-- `setRoutineLocked` outside the D16 pattern -/
-theorem setRoutineLocked_shape' (s : St) (f arg : Nat)
-    (hok : ¬ ((setRoutineLocked s f arg).1.routine = none ∧ (setRoutineLocked s f arg).2.1 ≠ none)) :
-    Shape s (setRoutineLocked s f arg).1 := by
-  apply setRoutineLocked_shape
-  by_cases hf : f = 0
-  · subst hf
-    right
-    rw [setRoutineLocked_wr] at hok
-    have := setRoutineLocked_routine_zero s arg
-    cases hl : lastOf s with
-    | none => rfl
-    | some p => exact absurd ⟨this, by simp [hl]⟩ hok
-  · exact Or.inl hf
-
-theorem apiCS_shape (s : St) (cf : Cfg) (op : Op) (r : St × Res × Option Nat) (h : apiCS s cf op = some r)
-    (hok : ¬ (r.1.routine = none ∧ r.2.2 ≠ none)) : Shape s r.1 := by
+theorem apiCS_shape (s : St) (cf : Cfg) (op : Op) (r : St × Res × Option Nat) (h : apiCS s cf op = some r) :
+    Shape s r.1 := by
   cases op with
   | setContext c restart => simp [apiCS] at h; subst h; exact setContextCS_shape s c restart
   | setRoutine f =>
     simp only [apiCS] at h
     split at h
     · cases h
-    · simp at h; subst h; exact setRoutineLocked_shape' s f 0 hok
+    · simp at h; subst h; exact setRoutineLocked_shape s f 0
   | restart => simp [apiCS] at h; subst h; exact restartCS_shape s
   | setState v =>
     simp only [apiCS] at h
     split at h
     · cases h
     · simp at h; subst h
-      simp only [setStateCS] at hok ⊢
+      simp only [setStateCS]
       split
-      · rename_i hc
-        simp only [hc, if_true, updateStateRoutine] at hok ⊢
-        exact (setRoutineLocked_shape' { s with sval := v } _ _ hok).of_base rfl rfl
+      · simp only [updateStateRoutine]
+        exact (setRoutineLocked_shape { s with sval := v } _ _).of_base rfl rfl
       · exact .same rfl rfl
   | setStateRoutine f =>
     simp only [apiCS] at h
     split at h
     · cases h
     · simp at h; subst h
-      simp only [updateStateRoutine] at hok ⊢
-      exact (setRoutineLocked_shape' { s with sfn := f } _ _ hok).of_base rfl rfl
+      simp only [updateStateRoutine]
+      exact (setRoutineLocked_shape { s with sfn := f } _ _).of_base rfl rfl
   | swap k =>
     simp only [apiCS] at h
     split at h
@@ -842,11 +817,10 @@ theorem apiCS_shape (s : St) (cf : Cfg) (op : Op) (r : St × Res × Option Nat) 
       · split at h
         · simp only [Option.some.injEq] at h; subst h
           rename_i n _
-          simp only [setStateCS] at hok ⊢
+          simp only [setStateCS]
           split
-          · rename_i hc
-            simp only [hc, if_true, updateStateRoutine] at hok ⊢
-            exact (setRoutineLocked_shape' { s with sval := n } _ _ hok).of_base rfl rfl
+          · simp only [updateStateRoutine]
+            exact (setRoutineLocked_shape { s with sval := n } _ _).of_base rfl rfl
           · exact .same rfl rfl
         · simp only [Option.some.injEq] at h; subst h; exact .same rfl rfl
       · simp at h; subst h; exact .same rfl rfl
@@ -901,7 +875,10 @@ theorem waitSample_proj (s : St) (rinr : Bool) : proj (waitSample s rinr).1 = pr
 theorem csok_waitSample (s : St) (rinr : Bool) : CSOK s (waitSample s rinr).1 := by
   simp only [waitSample]; exact csok_normCtx s
 
-theorem timerBody_shape (s : St) (r : Nat) : Shape s (timerBody s r) := by
+theorem get_set_self' {α : Type} {l : List α} {i : Nat} (v : α) (h : i < l.length) : (l.set i v)[i]? = some v := by
+  simp [h]
+
+theorem timerBody_shape (s : St) (t r : Nat) : Shape s (timerBody s t r) := by
   simp only [timerBody]
   apply Shape.bcast
   split
@@ -911,16 +888,18 @@ theorem timerBody_shape (s : St) (r : Nat) : Shape s (timerBody s r) := by
       have hr : s.routine = some r := by
         have : (s.routine == some r) = true := by simp only [Bool.and_eq_true] at hc; exact hc.1.2
         simpa using this
-      exact start_shape s s r s.ctx x.exitedCh true x rfl hr hx (lastOf_of hr hx).symm (by simp)
+      exact start_shape s _ r s.ctx x.exitedCh true { x with retry := none } rfl hr
+        (get_set_self' _ (get_lt hx)) (lastOf_of hr hx).symm (by simp)
     · exact .same rfl rfl
   · exact .same rfl rfl
 
-theorem csok_timerBody (s : St) (r : Nat) : CSOK s (timerBody s r) := by
+theorem csok_timerBody (s : St) (t r : Nat) : CSOK s (timerBody s t r) := by
   simp only [timerBody]
   refine CSOK.trans ?_ (csok_bcast _)
   split
-  · split
-    · exact csok_startRec _ _ _ _ _
+  · rename_i x hx
+    split
+    · exact (csok_set s r x { x with retry := none } hx rfl (Or.inl rfl) (Or.inl rfl) (Or.inl rfl)).trans (csok_startRec _ _ _ _ _)
     · exact CSOK.refl s
   · exact CSOK.refl s
 
@@ -937,12 +916,18 @@ theorem csok_killTimer (s : St) (o : Option Nat) : CSOK s (killTimer s o) := CSO
 theorem record_core (s S : St) (n : Nat) (x : Inst) (r y : Rec)
     (hx : s.insts[n]? = some x) (hc : x.st = .closed)
     (hS : CSOK s S) (hpr : proj S = proj s) (hrt : S.routine = s.routine) (hrecs : S.recs = s.recs)
+    (hclr : S.cleared = s.cleared)
     (hr : s.recs[x.rid]? = some r) (hrc : r.rctx = some n)
     (hy1 : y.rctx = r.rctx) (hy2 : y.cancelOf = r.cancelOf) (hy3 : y.exitedCh = none)
-    (S' : St) (hS'1 : S'.insts = S.insts) (hS'2 : S'.recs = S.recs.set x.rid y) (hS'3 : S'.routine = S.routine) :
+    (S' : St) (hS'1 : S'.insts = S.insts) (hS'2 : S'.recs = S.recs.set x.rid y) (hS'3 : S'.routine = S.routine)
+    (hS'4 : S'.cleared = S.cleared) :
     CSOK s S' ∧ (AllRec s → Steps (proj s) (proj S')) := by
   have hr' : S.recs[x.rid]? = some r := by rw [hrecs]; exact hr
+  have hxS : ∃ z, S.insts[n]? = some z ∧ z.st = .closed := by
+    obtain ⟨z, hz, hle⟩ := hS.1 n x hx
+    exact ⟨z, hz, by rw [hle.2.2.2.1]; exact hc⟩
   have hset := csok_set S x.rid r y hr' hy1 (Or.inl hy2) (Or.inr hy3)
+    (Or.inr (by intro m hm; rw [hy1, hrc] at hm; cases hm; exact hxS))
   have hfin : CSOK { S with recs := S.recs.set x.rid y } S' := CSOK.of_eq hS'2 hS'1
   refine ⟨(hS.trans hset).trans hfin, fun ha => ?_⟩
   -- projection: the instances are unchanged; `last` is cleared iff this record is the container's
@@ -968,7 +953,7 @@ theorem record_core (s S : St) (n : Nat) (x : Inst) (r y : Rec)
       rw [hins, hl', hl, e]
   · apply steps_of_proj_eq
     have hl' : lastOf S' = lastOf s := by
-      apply lastOf_congr (by rw [hS'3, hrt])
+      apply lastOf_congr (by rw [hS'3, hrt]) ?_ (by rw [hS'4, hclr])
       intro q hq
       have hne : ¬ x.rid = q := fun e => hcur (e ▸ hq)
       simp [hS'2, hrecs, List.getElem?_set, hne]
@@ -1006,21 +991,21 @@ theorem recordCS_ok (s s' : St) (cf : Cfg) (n : Nat) (x : Inst) (dur : Bool)
             { r with err := x.out, success := x.out.isNone, exited := true, exitedCh := none,
                      retry := if dur = true then some (killTimer (setInst s n { x with recorded := true }) r.retry).timers.length else none }
             hx hc
-            (h1.trans (csok_killTimer _ _)) ?_ (by simp [setInst]) (by simp [setInst]) hr hrc rfl rfl rfl _ rfl rfl rfl
-          simp only [proj, killTimer_insts, lastOf, killTimer_routine, killTimer_recs]
+            (h1.trans (csok_killTimer _ _)) ?_ (by simp [setInst]) (by simp [setInst]) (by simp [setInst]) hr hrc rfl rfl rfl _ rfl rfl rfl rfl
+          simp only [proj, killTimer_insts, lastOf, killTimer_routine, killTimer_recs, killTimer_cleared]
           exact hp1
         · have hret' : cf.retry = false := by simpa using hret
           simp only [hret', Bool.false_eq_true, if_false]
           refine record_core s (setInst s n { x with recorded := true }) n x r
             { r with err := x.out, success := x.out.isNone, exited := true, exitedCh := none } hx hc
-            h1 hp1 rfl rfl hr hrc rfl rfl rfl _ rfl rfl rfl
+            h1 hp1 rfl rfl rfl hr hrc rfl rfl rfl _ rfl rfl rfl rfl
     · split at h
       · cases h
       · simp only [Option.some.injEq] at h; subst h
         exact ⟨h1, fun _ => steps_of_proj_eq hp1⟩
 
 theorem allRec_setInst {s : St} (h : AllRec s) (n : Nat) (x y : Inst) (hx : s.insts[n]? = some x)
-    (hr : y.rid = x.rid) : AllRec (setInst s n y) := by
+    (hr : y.rid = x.rid) (hcl : x.st = .closed → y.st = .closed := by simp_all) : AllRec (setInst s n y) := by
   intro r z hz
   have hz' : s.recs[r]? = some z := hz
   have g := h r z hz'
@@ -1032,30 +1017,36 @@ theorem allRec_setInst {s : St} (h : AllRec s) (n : Nat) (x y : Inst) (hx : s.in
       rw [hx] at hw; cases hw
       exact ⟨y, by simp [setInst, get_lt hx], hr.trans hwr⟩
     · exact ⟨w, by simp [setInst, List.getElem?_set, hnm, hw], hwr⟩
-  · intro p hp; simpa [setInst] using g.e1 p hp
+  · intro he m hm
+    obtain ⟨w, hw, hwc⟩ := g.kx he m hm
+    by_cases hnm : n = m
+    · subst hnm
+      rw [hx] at hw; cases hw
+      exact ⟨y, by simp [setInst, get_lt hx], hcl hwc⟩
+    · exact ⟨w, by simp [setInst, List.getElem?_set, hnm, hw], hwc⟩
 
 /-- events that touch neither instances, records nor the routine pointer -/
 theorem allRec_frame {s s' : St} (h : AllRec s) (h1 : s'.recs = s.recs) (h2 : s'.insts = s.insts) : AllRec s' :=
   h.of_eq h1 (InstsExt.of_eq h2)
 
-theorem proj_frame {s s' : St} (h1 : s'.recs = s.recs) (h2 : s'.insts = s.insts) (h3 : s'.routine = s.routine) :
-    proj s' = proj s := by
-  simp [proj, lastOf, h1, h2, h3]
+theorem proj_frame {s s' : St} (h1 : s'.recs = s.recs) (h2 : s'.insts = s.insts) (h3 : s'.routine = s.routine)
+    (h4 : s'.cleared = s.cleared) : proj s' = proj s := by
+  simp [proj, lastOf, h1, h2, h3, h4]
 
-/-- **Projection lemma**: every event of the routine model — except the D16 critical section — maps to zero or
-more events of the hand-over chain on the projected slot; and the per-record invariant is kept by every event. -/
+/-- **Projection lemma**: every event of the routine model maps to zero or more events of the hand-over chain on
+the projected slot; and the per-record invariant is kept by every event. -/
 theorem step_ok (s s' : St) (e : Ev) (ha : AllRec s) (hs : step s e = some s') :
-    AllRec s' ∧ (clearsLive s e = false → Steps (proj s) (proj s')) := by
+    AllRec s' ∧ Steps (proj s) (proj s') := by
   cases e with
   | cfg c =>
     simp only [step, stepI] at hs
     split at hs
-    · simp at hs; subst hs; exact ⟨allRec_frame ha rfl rfl, fun _ => steps_of_proj_eq rfl⟩
+    · simp at hs; subst hs; exact ⟨allRec_frame ha rfl rfl, steps_of_proj_eq rfl⟩
     · cases hs
   | inv a op =>
     simp only [step, stepI] at hs
     split at hs
-    · simp at hs; subst hs; exact ⟨allRec_frame ha rfl rfl, fun _ => steps_of_proj_eq rfl⟩
+    · simp at hs; subst hs; exact ⟨allRec_frame ha rfl rfl, steps_of_proj_eq rfl⟩
     · cases hs
   | cs a =>
     simp only [step, stepI] at hs
@@ -1067,7 +1058,7 @@ theorem step_ok (s s' : St) (e : Ev) (ha : AllRec s) (hs : step s e = some s') :
         · -- WaitExited sample section
           split at hs
           · simp at hs; subst hs
-            refine ⟨allRec_frame ((csok_waitSample s _).2 ha) rfl rfl, fun _ => ?_⟩
+            refine ⟨allRec_frame ((csok_waitSample s _).2 ha) rfl rfl, ?_⟩
             apply steps_of_proj_eq
             rw [proj_setCall, waitSample_proj]
           · cases hs
@@ -1076,18 +1067,10 @@ theorem step_ok (s s' : St) (e : Ev) (ha : AllRec s) (hs : step s e = some s') :
           · split at hs
             · rename_i r hr
               simp at hs; subst hs
-              refine ⟨allRec_frame ((csok_apiCS s cf _ r hr).2 ha) rfl rfl, fun hcl => ?_⟩
+              refine ⟨allRec_frame ((csok_apiCS s cf _ r hr).2 ha) rfl rfl, ?_⟩
               rw [proj_setCall]
               apply Shape.steps
-              apply apiCS_shape s cf _ r hr
-              intro hbad
-              have : clearsLive s (.cs a) = true := by
-                simp only [clearsLive, hcf, hc, hinv, hr]
-                simp [hbad.1]
-                cases h2 : r.2.2 with
-                | none => exact absurd h2 hbad.2
-                | some _ => rfl
-              rw [this] at hcl; cases hcl
+              exact apiCS_shape s cf _ r hr
             · cases hs
       · cases hs
     · cases hs
@@ -1095,9 +1078,9 @@ theorem step_ok (s s' : St) (e : Ev) (ha : AllRec s) (hs : step s e = some s') :
     simp only [step, stepI] at hs
     split at hs
     · split at hs
-      · simp at hs; subst hs; exact ⟨allRec_frame ha rfl rfl, fun _ => steps_of_proj_eq rfl⟩
+      · simp at hs; subst hs; exact ⟨allRec_frame ha rfl rfl, steps_of_proj_eq rfl⟩
       · split at hs
-        · simp at hs; subst hs; exact ⟨allRec_frame ha rfl rfl, fun _ => steps_of_proj_eq rfl⟩
+        · simp at hs; subst hs; exact ⟨allRec_frame ha rfl rfl, steps_of_proj_eq rfl⟩
         · cases hs
     · cases hs
   | wake a =>
@@ -1105,7 +1088,7 @@ theorem step_ok (s s' : St) (e : Ev) (ha : AllRec s) (hs : step s e = some s') :
     split at hs
     · split at hs
       · split at hs
-        · simp at hs; subst hs; exact ⟨allRec_frame ha rfl rfl, fun _ => steps_of_proj_eq rfl⟩
+        · simp at hs; subst hs; exact ⟨allRec_frame ha rfl rfl, steps_of_proj_eq rfl⟩
         · cases hs
       · cases hs
     · cases hs
@@ -1114,25 +1097,25 @@ theorem step_ok (s s' : St) (e : Ev) (ha : AllRec s) (hs : step s e = some s') :
     split at hs
     · split at hs
       · split at hs
-        · simp at hs; subst hs; exact ⟨allRec_frame ha rfl rfl, fun _ => steps_of_proj_eq rfl⟩
+        · simp at hs; subst hs; exact ⟨allRec_frame ha rfl rfl, steps_of_proj_eq rfl⟩
         · cases hs
       · cases hs
     · cases hs
   | envCancel c =>
     simp only [step, stepI] at hs
     split at hs
-    · simp at hs; subst hs; exact ⟨allRec_frame ha rfl rfl, fun _ => steps_of_proj_eq rfl⟩
+    · simp at hs; subst hs; exact ⟨allRec_frame ha rfl rfl, steps_of_proj_eq rfl⟩
     · cases hs
   | envDo c =>
     simp only [step, stepI] at hs
     split at hs
-    · simp at hs; subst hs; exact ⟨allRec_frame ha rfl rfl, fun _ => steps_of_proj_eq rfl⟩
+    · simp at hs; subst hs; exact ⟨allRec_frame ha rfl rfl, steps_of_proj_eq rfl⟩
     · cases hs
   | envCancelW a =>
     simp only [step, stepI] at hs
     split at hs
     · split at hs
-      · simp at hs; subst hs; exact ⟨allRec_frame ha rfl rfl, fun _ => steps_of_proj_eq rfl⟩
+      · simp at hs; subst hs; exact ⟨allRec_frame ha rfl rfl, steps_of_proj_eq rfl⟩
       all_goals cases hs
     · cases hs
   | giveUp n =>
@@ -1144,12 +1127,12 @@ theorem step_ok (s s' : St) (e : Ev) (ha : AllRec s) (hs : step s e = some s') :
         split at hs
         · rename_i p hw
           simp at hs; subst hs
-          refine ⟨allRec_setInst ha n x _ hx rfl, fun _ => ?_⟩
+          refine ⟨allRec_setInst ha n x _ hx rfl, ?_⟩
           refine steps_move s n x _ hx rfl (.giveUp n) ?_
           simp [Chain.step, proj_get s n x hx, pI, pst, hg.1]
         · rename_i hw
           simp at hs; subst hs
-          refine ⟨allRec_setInst ha n x _ hx rfl, fun _ => ?_⟩
+          refine ⟨allRec_setInst ha n x _ hx rfl, ?_⟩
           -- no wait channel and the context already cancelled: give up and drain at once
           refine ⟨[.giveUp n, .drained n], ?_⟩
           have h1 : Chain.step (proj s) (.giveUp n) = some (Chain.setSt (proj s) n (pI x) .draining) := by
@@ -1170,7 +1153,7 @@ theorem step_ok (s s' : St) (e : Ev) (ha : AllRec s) (hs : step s e = some s') :
       split at hs
       · rename_i hg
         simp at hs; subst hs
-        refine ⟨allRec_setInst ha n x _ hx rfl, fun _ => ?_⟩
+        refine ⟨allRec_setInst ha n x _ hx rfl, ?_⟩
         refine steps_move s n x _ hx rfl (.drained n) ?_
         have := predClosed_proj s x
         simp [Chain.step, proj_get s n x hx, this, hg.2, pst]
@@ -1185,7 +1168,7 @@ theorem step_ok (s s' : St) (e : Ev) (ha : AllRec s) (hs : step s e = some s') :
       · split at hs
         · rename_i hg
           simp at hs; subst hs
-          refine ⟨allRec_frame (allRec_setInst ha n x { x with st := .running } hx rfl) rfl rfl, fun _ => ?_⟩
+          refine ⟨allRec_frame (allRec_setInst ha n x { x with st := .running } hx rfl) rfl rfl, ?_⟩
           have hpe : proj { (setInst s n { x with st := .running }) with ent := s.ent ++ [n] } =
               proj (setInst s n { x with st := .running }) := rfl
           rw [hpe]
@@ -1205,7 +1188,7 @@ theorem step_ok (s s' : St) (e : Ev) (ha : AllRec s) (hs : step s e = some s') :
         split at hs
         · rename_i hg
           simp at hs; subst hs
-          refine ⟨allRec_setInst ha n x _ hx rfl, fun _ => ?_⟩
+          refine ⟨allRec_setInst ha n x _ hx rfl, ?_⟩
           refine steps_move s n x _ hx rfl (.ret n) ?_
           simp [Chain.step, proj_get s n x hx, pst]
           simp [pI, pst, hg]
@@ -1219,7 +1202,7 @@ theorem step_ok (s s' : St) (e : Ev) (ha : AllRec s) (hs : step s e = some s') :
       split at hs
       · rename_i hg
         simp at hs; subst hs
-        refine ⟨allRec_setInst ha n x _ hx rfl, fun _ => ?_⟩
+        refine ⟨allRec_setInst ha n x _ hx rfl, ?_⟩
         refine steps_move s n x _ hx rfl (.close n) ?_
         simp [Chain.step, proj_get s n x hx, pst]
         simp [pI, pst, hg]
@@ -1232,21 +1215,21 @@ theorem step_ok (s s' : St) (e : Ev) (ha : AllRec s) (hs : step s e = some s') :
       split at hs
       · rename_i hg
         have := recordCS_ok s s' cf n x dur hx hg.1 hs
-        exact ⟨this.1.2 ha, fun _ => this.2 ha⟩
+        exact ⟨this.1.2 ha, this.2 ha⟩
       · cases hs
     · cases hs
   | emit o =>
     simp only [step, stepI] at hs
     split at hs
     · split at hs
-      · simp at hs; subst hs; exact ⟨allRec_frame ha rfl rfl, fun _ => steps_of_proj_eq rfl⟩
+      · simp at hs; subst hs; exact ⟨allRec_frame ha rfl rfl, steps_of_proj_eq rfl⟩
       · cases hs
     · cases hs
   | fire t =>
     simp only [step, stepI] at hs
     split at hs
     · split at hs
-      · simp at hs; subst hs; exact ⟨allRec_frame ha rfl rfl, fun _ => steps_of_proj_eq rfl⟩
+      · simp at hs; subst hs; exact ⟨allRec_frame ha rfl rfl, steps_of_proj_eq rfl⟩
       · cases hs
     · cases hs
   | timerCS t =>
@@ -1256,15 +1239,15 @@ theorem step_ok (s s' : St) (e : Ev) (ha : AllRec s) (hs : step s e = some s') :
       split at hs
       · simp at hs; subst hs
         have hb : CSOK s { s with timers := s.timers.set t { tm with st := .dead } } := CSOK.of_eq rfl rfl
-        refine ⟨((hb.trans (csok_timerBody _ tm.rid)).2 ha), fun _ => ?_⟩
-        exact ((timerBody_shape { s with timers := s.timers.set t { tm with st := .dead } } tm.rid).of_base rfl rfl).steps
+        refine ⟨((hb.trans (csok_timerBody _ t tm.rid)).2 ha), ?_⟩
+        exact ((timerBody_shape { s with timers := s.timers.set t { tm with st := .dead } } t tm.rid).of_base rfl rfl).steps
       · cases hs
     · cases hs
   | probeCtx k b =>
     simp only [step, stepI] at hs
     split at hs
     · split at hs
-      · simp at hs; subst hs; exact ⟨ha, fun _ => Steps.refl _⟩
+      · simp at hs; subst hs; exact ⟨ha, Steps.refl _⟩
       · cases hs
     · cases hs
   | probeW a b =>
@@ -1272,22 +1255,17 @@ theorem step_ok (s s' : St) (e : Ev) (ha : AllRec s) (hs : step s e = some s') :
     split at hs
     · split at hs
       · split at hs
-        · simp at hs; subst hs; exact ⟨ha, fun _ => Steps.refl _⟩
+        · simp at hs; subst hs; exact ⟨ha, Steps.refl _⟩
         · cases hs
       · cases hs
     · cases hs
   | quiesce p r =>
     simp only [step] at hs
     split at hs
-    · simp at hs; subst hs; exact ⟨ha, fun _ => Steps.refl _⟩
+    · simp at hs; subst hs; exact ⟨ha, Steps.refl _⟩
     · cases hs
 
 /-! ## runs -/
-
-/-- no event of the run is the D16 critical section (`clearsLive`) -/
-def SafeRun : St → List Ev → Prop
-  | _, [] => True
-  | s, e :: es => clearsLive s e = false ∧ (∀ s', step s e = some s' → SafeRun s' es)
 
 structure Good (s : St) : Prop where
   recs : AllRec s
@@ -1309,8 +1287,7 @@ theorem allRec_run (s s' : St) (es : List Ev) (h : AllRec s) (hr : model.run s e
       simp [hst] at hr
       exact ih s1 (step_ok s s1 e h hst).1 hr
 
-theorem good_run (s s' : St) (es : List Ev) (h : Good s) (hsafe : SafeRun s es)
-    (hr : model.run s es = some s') : Good s' := by
+theorem good_run (s s' : St) (es : List Ev) (h : Good s) (hr : model.run s es = some s') : Good s' := by
   induction es generalizing s with
   | nil => simp [OLTS.run] at hr; subst hr; exact h
   | cons e es ih =>
@@ -1320,7 +1297,7 @@ theorem good_run (s s' : St) (es : List Ev) (h : Good s) (hsafe : SafeRun s es)
     | some s1 =>
       simp [hst] at hr
       have hk := step_ok s s1 e h.recs hst
-      exact ih s1 ⟨hk.1, (hk.2 hsafe.1).inv h.chain⟩ (hsafe.2 s1 hst) hr
+      exact ih s1 ⟨hk.1, hk.2.inv h.chain⟩ hr
 
 theorem chain_closed_mono (a b : Chain.Slot) (e : Chain.Ev) (h : Chain.step a e = some b) (n : Nat)
     (hc : Chain.isClosed a n = true) : Chain.isClosed b n = true := by
@@ -1404,7 +1381,7 @@ theorem steps_closed_mono {a b : Chain.Slot} (h : Steps a b) (n : Nat) (hc : Cha
     | none => simp [hst] at h
     | some a1 => simp [hst] at h; exact ih (chain_closed_mono a a1 e hst n hc) h
 
-theorem closed_run (s s' : St) (es : List Ev) (h : AllRec s) (hsafe : SafeRun s es)
+theorem closed_run (s s' : St) (es : List Ev) (h : AllRec s)
     (hr : model.run s es = some s') (n : Nat) (hc : instClosed s n = true) : instClosed s' n = true := by
   induction es generalizing s with
   | nil => simp [OLTS.run] at hr; subst hr; exact hc
@@ -1415,9 +1392,9 @@ theorem closed_run (s s' : St) (es : List Ev) (h : AllRec s) (hsafe : SafeRun s 
     | some s1 =>
       simp [hst] at hr
       have hk := step_ok s s1 e h hst
-      have := steps_closed_mono (hk.2 hsafe.1) n (by rw [isClosed_proj]; exact hc)
+      have := steps_closed_mono hk.2 n (by rw [isClosed_proj]; exact hc)
       rw [isClosed_proj] at this
-      exact ih s1 hk.1 (hsafe.2 s1 hst) hr this
+      exact ih s1 hk.1 hr this
 
 /-- the wait channel a call returns is the container's `last` exit channel at its critical section -/
 theorem apiCS_wr (s : St) (cf : Cfg) (op : Op) (r : St × Res × Option Nat) (h : apiCS s cf op = some r)
@@ -1467,42 +1444,5 @@ theorem apiCS_wr (s : St) (cf : Cfg) (op : Op) (r : St × Res × Option Nat) (h 
     · cases h
     · simp at h; subst h; simp at hp
   | waitExited _ => simp [apiCS] at h
-
-theorem safeRun_append (s s1 : St) (es fs : List Ev) (h : SafeRun s (es ++ fs))
-    (hr : model.run s es = some s1) : SafeRun s es ∧ SafeRun s1 fs := by
-  induction es generalizing s with
-  | nil => simp [OLTS.run] at hr; subst hr; exact ⟨trivial, h⟩
-  | cons e es ih =>
-    simp only [OLTS.run] at hr
-    cases hst : model.step s e with
-    | none => simp [hst] at hr
-    | some s2 =>
-      simp [hst] at hr
-      have h' : SafeRun s (e :: (es ++ fs)) := h
-      obtain ⟨g1, g2⟩ := ih s2 (h'.2 s2 hst) hr
-      refine ⟨⟨h'.1, ?_⟩, g2⟩
-      intro s' hs'
-      have : s' = s2 := by
-        have e1 : model.step s e = some s' := hs'
-        rw [hst] at e1; exact (Option.some.inj e1).symm
-      subst this; exact g1
-
-/-- executable form of `SafeRun` along the (deterministic) run -/
-def safeRunB : St → List Ev → Bool
-  | _, [] => true
-  | s, e :: es => !clearsLive s e && (match step s e with
-                                      | some s' => safeRunB s' es
-                                      | none => true)
-
-theorem safeRun_of_bool (s : St) (es : List Ev) (h : safeRunB s es = true) : SafeRun s es := by
-  induction es generalizing s with
-  | nil => trivial
-  | cons e es ih =>
-    simp only [safeRunB, Bool.and_eq_true] at h
-    refine ⟨by simpa using h.1, ?_⟩
-    intro s' hs'
-    have h2 := h.2
-    simp only [hs'] at h2
-    exact ih s' h2
 
 end UtilModel.Routine
